@@ -110,6 +110,8 @@ def main(argv):
             # the whole build: every library unit of the compile database takes part in call-graph / call-site rules
             units += ir.build_units()
         prog = ir.load_program(units, variant=tuple(VARIANTS[variant]) if variant else ())
+        from . import charclass as _cc
+        _cc.PROG = prog
         try:
             extra = mod.run(ck, prog) or {}
         except ir.AnalysisBroken as e:
